@@ -145,6 +145,10 @@ def operation(sc: dict, idx: int) -> dict:
     order = sc.get("order") or sorted(sc["decl"], key=lambda s: (s == "default", s))
     assert sorted(order) == sorted(sc["decl"])
     for st in order:
+        if st == sc["served"] and sc.get("share", "inline") != "inline":
+            # declared by reference to components/responses (document() defines R<idx>)
+            resp[st] = {"$ref": f"#/components/responses/R{idx}"}
+            continue
         r: dict[str, Any] = {"description": f"response {st}"}
         c = content(sc["decl"][st])
         if c:
@@ -155,13 +159,52 @@ def operation(sc: dict, idx: int) -> dict:
     return {"operationId": f"op{idx}", "tags": [f"t{idx}"], "responses": resp}
 
 
+def companion(sc: dict) -> dict | None:
+    """the companion operation of a scenario (Reply!CoScenario) as a scenario of its own: same shared response, own status"""
+    co = sc.get("co") or {}
+    if not co.get("served"):
+        return None
+    return {"id": sc["id"] + "co", "served": co["served"], "others": [], "c": sc["c"], "sh": sc["sh"], "role": co["role"], "sib": False, "ord": "asc",
+            "share": co["share"], "status": co["status"], "decl": {co["served"]: sc["decl"][sc["served"]]}, "order": [co["served"]],
+            "model_ann": co["model_ann"], "bodies": sc["bodies"], "companion_of": scen_label(sc)}
+
+
+def units(idx: int, sc: dict) -> list[tuple[str, str, dict]]:
+    """(key, request path, scenario) of every operation that is called for a scenario: itself and its companion"""
+    out = [(str(idx), f"/o{idx}", sc)]
+    co = companion(sc)
+    if co:
+        out.append((f"{idx}co", f"/o{idx}/co", co))
+    return out
+
+
 def document(scs: list[tuple[int, dict]]) -> dict:
-    paths = {f"/o{idx}": {"get": operation(sc, idx)} for idx, sc in scs}
+    paths: dict[str, Any] = {}
+    responses: dict[str, Any] = {}
+    for idx, sc in scs:
+        share = sc.get("share", "inline")
+        if share != "inline":
+            r: dict[str, Any] = {"description": f"shared response R{idx}"}
+            c = content(sc["decl"][sc["served"]])
+            if c:
+                r["content"] = c
+            responses[f"R{idx}"] = r
+        co = companion(sc)
+        co_item = {"get": {"operationId": f"co{idx}", "tags": [f"t{idx}co"], "responses": {co["served"]: {"$ref": f"#/components/responses/R{idx}"}}}} if co else None
+        # `paths` in document order: the companion before or after the operation
+        if co and share.endswith("_before"):
+            paths[f"/o{idx}/co"] = co_item
+        paths[f"/o{idx}"] = {"get": operation(sc, idx)}
+        if co and share.endswith("_after"):
+            paths[f"/o{idx}/co"] = co_item
     for idx, sc in scs:
         if sc.get("sib"):
             # the sibling: an ordinary operation in the same tag (= the same emitted endpoint module)
             paths[f"/o{idx}/sib"] = {"get": {"operationId": f"sib{idx}", "tags": [f"t{idx}"], "responses": {"200": features.jresp(R("Other"))}}}
-    return {"openapi": "3.0.3", "info": {"title": "Reply API", "version": "1.0.0"}, "paths": paths, "components": {"schemas": SCHEMAS}}
+    comps: dict[str, Any] = {"schemas": SCHEMAS}
+    if responses:
+        comps["responses"] = responses
+    return {"openapi": "3.0.3", "info": {"title": "Reply API", "version": "1.0.0"}, "paths": paths, "components": comps}
 
 
 def cut(data: bytes, chunking: str) -> list[bytes]:
@@ -337,8 +380,16 @@ def design(chk: Any, maxdecl: int, level: int) -> Counter:
             chk.require(acts.get(a, 0) > 0, f"vacuous design run (fixed): action {a} never taken")
         chk.cov["design_action_counts"]["fixed"] = dict(sorted(acts.items()))
     # negative control: a disagreement between the two selection copies is a design-level counterexample
-    for v in ("sig201", "hdl201", "sigsorted"):
-        r = run_tlc(chk.scratch, "MC_Reply", design_cfg(v, 2, 1, False, ["SelectionsAgree"]), allow_violation=True, workers=4)
+    import concurrent.futures
+
+    variants = ("sig201", "hdl201", "sigsorted", "hdlfirst")
+
+    def control(v: str):
+        return run_tlc(_Sub(chk.scratch.path / f"ctl_{v}"), "MC_Reply", design_cfg(v, 2, 1, False, ["SelectionsAgree"]) + "CONSTRAINT ControlCell\n", allow_violation=True, workers=2)
+
+    with concurrent.futures.ThreadPoolExecutor(len(variants)) as ex:
+        results = list(ex.map(control, variants))
+    for v, r in zip(variants, results):
         chk.add_tlc(f"MC_Reply[{v}]", r)
         chk.require("SelectionsAgree" in r.violated, f"design check does not see the disagreement of variant {v}")
         chk.cov.setdefault("design_negative_controls", {})[v] = "SelectionsAgree violated (expected)"
@@ -350,7 +401,7 @@ def design(chk: Any, maxdecl: int, level: int) -> Counter:
 
 
 def scen_key(s: dict) -> str:
-    return json.dumps([s["served"], sorted(s["others"]), s["c"], s["sh"], bool(s.get("sib")), bool(s.get("desc"))])
+    return json.dumps([s["served"], sorted(s["others"]), s["c"], s["sh"], bool(s.get("sib")), s.get("ord", "asc"), s.get("share", "inline")])
 
 
 def scenarios(chk: Check, maxdecl: int, level: int) -> list[dict]:
@@ -371,7 +422,7 @@ def scenarios(chk: Check, maxdecl: int, level: int) -> list[dict]:
 
 
 def serve_entries(idx: int, sc: dict) -> list[dict]:
-    return [{"sid": f"{idx}#{k}", "status": sc["status"], "transport": "bundled", "path_re": f"/o{idx}", **wire(b)} for k, b in enumerate(sc["bodies"])]
+    return [{"sid": f"{key}#{k}", "status": u["status"], "transport": "bundled", "path_re": path, **wire(b)} for key, path, u in units(idx, sc) for k, b in enumerate(u["bodies"])]
 
 
 def _check_obs(o: dict, keys: list[str], what: str) -> None:
@@ -429,7 +480,7 @@ def generate_and_serve(chk: Check, scen: list[dict], label: str, pack: int) -> l
                 if bad:
                     reason = {"stage": "import", "exctype": bad[0]["exc"]["type"], "msg": f"{bad[0]['m']}: {bad[0]['exc']['msg'][:160]}"}
                     for e in o["compile"]["errors"]:
-                        m = re.search(r"endpoints/t_?(\d+)\.py$", e["file"])
+                        m = re.search(r"endpoints/t_?(\d+)\w*\.py$", e["file"])
                         if m:
                             culprits.add(int(m.group(1)))
             if reason is not None:
@@ -445,9 +496,10 @@ def generate_and_serve(chk: Check, scen: list[dict], label: str, pack: int) -> l
                         retry += [rest] if rest else []
                     else:
                         retry += [[x] for x in grp]  # every scenario alone
-                for idx, sc in dead:
-                    ev = [{"body": b, "got": _raise_got(reason["exctype"]), "_msg": f"{reason['stage']} failed: {reason['msg']}"} for b in sc["bodies"]]
-                    traces.append({"id": sc["id"], "served": sc["served"], "others": sc["others"], "c": sc["c"], "sh": sc["sh"], "role": sc["role"], "sib": sc["sib"], "desc": sc["desc"], "via": "method", "ann": ["any"], "ev": ev, "_sc": sc, "_ret": "", "_unusable": reason["stage"]})
+                for idx, sc0 in dead:
+                    for _key, _path, sc in units(idx, sc0):
+                        ev = [{"body": b, "got": _raise_got(reason["exctype"]), "_msg": f"{reason['stage']} failed: {reason['msg']}"} for b in sc["bodies"]]
+                        traces.append({"id": sc["id"], "served": sc["served"], "others": sc["others"], "c": sc["c"], "sh": sc["sh"], "role": sc["role"], "sib": sc["sib"], "ord": sc["ord"], "share": sc["share"], "via": "method", "ann": ["any"], "ev": ev, "_sc": sc, "_ret": "", "_unusable": reason["stage"]})
                 continue
             _check_obs(o, ["retkinds", "serve_by_path"], j["id"])
             if "helpers" in o:
@@ -458,25 +510,26 @@ def generate_and_serve(chk: Check, scen: list[dict], label: str, pack: int) -> l
             for rec in o["serve_by_path"]:
                 chk.require(rec["sid"] not in by_sid, f"{j['id']}: two methods answered for {rec['sid']}")
                 by_sid[rec["sid"]] = rec
-            for idx, sc in grp:
-                ev = []
-                meth = None
-                for k, b in enumerate(sc["bodies"]):
-                    rec = by_sid.get(f"{idx}#{k}")
-                    chk.require(rec is not None, f"{j['id']}: no method sends GET /o{idx} (scenario {sc['id']})")
-                    chk.require(rec["sent"][0]["method"] == "GET", f"{j['id']}: /o{idx} was not requested with GET")
-                    chk.require(meth in (None, (rec["prop"], rec["method"])), f"{j['id']}: two methods send to /o{idx}")
-                    meth = (rec["prop"], rec["method"])
-                    ev.append({"body": b, "got": got_of(rec["outcome"]), "_msg": rec["outcome"].get("exc", {}).get("msg", "")[:160] if rec["outcome"]["kind"] == "raise" else ""})
-                rk = kinds[meth]
-                if rk["kinds"] == ["unresolved"]:
-                    chk.note_drift(f"return annotation of the method for scenario {sc['id']} cannot be evaluated ({rk['error']}); annotation clause not judged")
-                    rk = {**rk, "kinds": ["any"]}
-                traces.append({"id": sc["id"], "served": sc["served"], "others": sc["others"], "c": sc["c"], "sh": sc["sh"], "role": sc["role"], "sib": sc["sib"], "desc": sc["desc"], "via": "method", "ann": rk["kinds"], "ev": ev, "_sc": sc, "_ret": by_sid[f"{idx}#0"]["ret"]})
+            for idx, sc0 in grp:
+                for key, path, sc in units(idx, sc0):
+                    ev = []
+                    meth = None
+                    for k, b in enumerate(sc["bodies"]):
+                        rec = by_sid.get(f"{key}#{k}")
+                        chk.require(rec is not None, f"{j['id']}: no method sends GET {path} (scenario {sc['id']})")
+                        chk.require(rec["sent"][0]["method"] == "GET", f"{j['id']}: {path} was not requested with GET")
+                        chk.require(meth in (None, (rec["prop"], rec["method"])), f"{j['id']}: two methods send to {path}")
+                        meth = (rec["prop"], rec["method"])
+                        ev.append({"body": b, "got": got_of(rec["outcome"]), "_msg": rec["outcome"].get("exc", {}).get("msg", "")[:160] if rec["outcome"]["kind"] == "raise" else ""})
+                    rk = kinds[meth]
+                    if rk["kinds"] == ["unresolved"]:
+                        chk.note_drift(f"return annotation of the method for scenario {sc['id']} cannot be evaluated ({rk['error']}); annotation clause not judged")
+                        rk = {**rk, "kinds": ["any"]}
+                    traces.append({"id": sc["id"], "served": sc["served"], "others": sc["others"], "c": sc["c"], "sh": sc["sh"], "role": sc["role"], "sib": sc["sib"], "ord": sc["ord"], "share": sc["share"], "via": "method", "ann": rk["kinds"], "ev": ev, "_sc": sc, "_ret": by_sid[f"{key}#0"]["ret"]})
         groups = retry
         chk.require(round_ <= 4, "package splitting did not converge")
     order = {s["id"]: i for i, s in enumerate(scen)}
-    traces.sort(key=lambda t: order[t["id"]])
+    traces.sort(key=lambda t: (order[t["id"].removesuffix("co")], t["id"]))
     return traces
 
 
@@ -523,7 +576,7 @@ def helper_traces(chk: Check) -> list[dict]:
     tr = []
     for h in helper_cases(chk):
         oc = outs[h["id"]]
-        tr.append({"id": h["id"], "served": "200", "others": [], "c": h["body"]["ct"], "sh": "object" if h["body"]["ct"] != "octet" else "-", "role": "helper", "sib": False, "desc": False, "via": "helper:" + h["fn"], "ann": ["any"], "ev": [{"body": h["body"], "got": got_of(oc), "_msg": oc.get("exc", {}).get("msg", "")[:160] if oc["kind"] == "raise" else ""}], "_sc": {"helper": h["fn"], "chunks": [bytes(c).decode("latin-1") for c in h["chunks"]]}})
+        tr.append({"id": h["id"], "served": "200", "others": [], "c": h["body"]["ct"], "sh": "object" if h["body"]["ct"] != "octet" else "-", "role": "helper", "sib": False, "ord": "asc", "share": "inline", "via": "helper:" + h["fn"], "ann": ["any"], "ev": [{"body": h["body"], "got": got_of(oc), "_msg": oc.get("exc", {}).get("msg", "")[:160] if oc["kind"] == "raise" else ""}], "_sc": {"helper": h["fn"], "chunks": [bytes(c).decode("latin-1") for c in h["chunks"]]}})
     return tr
 
 
@@ -532,7 +585,7 @@ def helper_traces(chk: Check) -> list[dict]:
 
 
 def _good(body: dict, got: dict, ann: list[str], c: str, sh: str) -> dict:
-    return {"served": "200", "others": [], "c": c, "sh": sh, "role": "primary", "sib": False, "desc": False, "via": "method", "ann": ann, "ev": [{"body": body, "got": got}]}
+    return {"served": "200", "others": [], "c": c, "sh": sh, "role": "primary", "sib": False, "ord": "asc", "share": "inline", "via": "method", "ann": ann, "ev": [{"body": body, "got": got}]}
 
 
 def negative_traces() -> list[dict]:
@@ -655,7 +708,7 @@ def account(chk: Check, traces: list[dict], vs: dict[str, dict], design_dev: Cou
             e = t["ev"][f["first"] - 1]
             stats["failing"] += f["n"]
             real[fkey(f["clause"], f["locus"])] += f["n"]
-            scen = {k: sc[k] for k in sc if k not in ("bodies", "id", "model_ann")} if t["via"] == "method" else dict(sc)
+            scen = {k: sc[k] for k in sc if k not in ("bodies", "id", "model_ann", "co")} if t["via"] == "method" else dict(sc)
             scen["body"] = e["body"]
             chk.fail(f["clause"], loc, scen, f"{f['n']} bodies of this operation, first: sent {json.dumps(sent(e['body']))[:200]} annotation {t.get('_ret', '')!r}: observed {json.dumps(brief(e['got']))[:200]} {e.get('_msg', '')}")
         if verbose:
@@ -686,7 +739,7 @@ def account(chk: Check, traces: list[dict], vs: dict[str, dict], design_dev: Cou
 def scen_label(sc: dict) -> str:
     if "decl" not in sc:
         return json.dumps(sc)[:80]
-    return ("[with sibling operation] " if sc.get("sib") else "") + ("[responses map in descending order] " if sc.get("desc") else "") + "{" + ", ".join(f"{st}: {r['c']}" + (f"/{r['sh']}" if r["sh"] != "-" else "") for st, r in sorted(sc["decl"].items())) + f"}} served {sc['served']}"
+    return ("[with sibling operation] " if sc.get("sib") else "") + (f"[responses in {sc['ord']} order] " if sc.get("ord", "asc") != "asc" else "") + (f"[served response declared: {sc['share']}] " if sc.get("share", "inline") != "inline" else "") + "{" + ", ".join(f"{st}: {r['c']}" + (f"/{r['sh']}" if r["sh"] != "-" else "") for st, r in sorted(sc["decl"].items())) + f"}} served {sc['served']}"
 
 
 # --------------------------------------------------------------------------------------------
@@ -757,8 +810,8 @@ def replay(chk: Check, path: str) -> None:
     # the scenario with every body of its cell (level 1) plus the failing one first
     r = run_tlc(chk.scratch, "Gen_Reply", f"SPECIFICATION Spec\nCONSTANTS\n MaxDecl = {len(sc['others']) + 1}\n Level = 1\nCHECK_DEADLOCK FALSE\n", workers=4)
     for x in r.printed.get("SCEN", []):
-        x.setdefault("desc", False)
-    match = [s for s in r.printed.get("SCEN", []) if s["served"] == sc["served"] and sorted(s["others"]) == sorted(sc["others"]) and s["c"] == sc["c"] and s["sh"] == sc["sh"] and s["sib"] == sc["sib"] and s["desc"] == sc.get("desc", False)]
+        x.setdefault("ord", "asc")
+    match = [s for s in r.printed.get("SCEN", []) if s["served"] == sc["served"] and sorted(s["others"]) == sorted(sc["others"]) and s["c"] == sc["c"] and s["sh"] == sc["sh"] and s["sib"] == sc["sib"] and s["ord"] == sc.get("ord", "asc") and s["share"] == sc.get("share", "inline")]
     chk.require(len(match) == 1, "the replay's scenario is not in the specified scenario space")
     s = match[0]
     s["others"] = sorted(s["others"])
